@@ -7,6 +7,7 @@ CONSTANT Cancellable <- CancelABC
 CONSTANT CancelAt <- QueuedOnly
 CONSTANT MaxStale = 0
 CONSTANT MaySilence = FALSE
+CONSTANT ConfPerTwice = 2
 CONSTANT FlushAfterConfirm = FALSE
 INVARIANT TypeOK
 INVARIANT WriteByOwner
